@@ -346,7 +346,9 @@ fn cmd_check(prop: &str, tier: &str) -> i32 {
         },
         "assumptions": assumptions(prop),
     });
-    let evdir = format!("{}/evidence", root);
+    // tools that run the checks against a deliberately broken tree redirect the evidence so
+    // that the committed files always describe the unchanged tree
+    let evdir = std::env::var("VERIF_EVIDENCE_DIR").unwrap_or_else(|_| format!("{}/evidence", root));
     std::fs::create_dir_all(&evdir).unwrap();
     std::fs::write(format!("{}/{}.json", evdir, prop), serde_json::to_string_pretty(&ev).unwrap()).unwrap();
 
